@@ -1,6 +1,7 @@
 import GoBatcher.Driver.Admit
 import GoBatcher.Driver.Cycle
 import GoBatcher.Driver.Buffer
+import GoBatcher.Driver.HistMon
 open GoBatcher.Driver
 
 structure Tot where
@@ -15,6 +16,7 @@ def handle (line : String) : Option (Option String × List (String × String)) :
   if line.startsWith "admit " then some (checkAdmit inp obs)
   else if line.startsWith "cycle " then some (checkCycle inp obs)
   else if line.startsWith "buffer " then some (checkBuffer inp obs)
+  else if line.startsWith "hist " then some (checkHist inp obs)
   else none
 
 partial def loop (h : IO.FS.Stream) (t : Tot) (n : Nat) : IO Tot := do
